@@ -73,7 +73,7 @@ Proof.
   set (a := ei - ej - w). set (b := w + (em - en)).
   destruct (soi_bound thr2 a b T H0 HT) as [B1 B2].
   destruct (soi_bound 0 a b T (Rle_refl 0) HT) as [Z1 Z2]. unfold soi_eps in Z1, Z2.
-  replace (0 * (T * T) * (1 / 2 + 0 / 4)) with 0 in Z1, Z2 by field.
+  replace (0 * 0 * (T * T) * (3 / 8 + 0 / 4)) with 0 in Z1, Z2 by field.
   assert (E1 : fst (soi_core RO 0 a b (a + b) T) = fst (I2x a b T)) by (apply Rminus_diag_uniq, Rabs_le0; exact Z1).
   assert (E2 : snd (soi_core RO 0 a b (a + b) T) = snd (I2x a b T)) by (apply Rminus_diag_uniq, Rabs_le0; exact Z2).
   eapply Rle_trans; [apply Cmod_le_parts|]. unfold csub. cbn [fst snd osub RO]. rewrite E1, E2. lra.
@@ -180,6 +180,7 @@ Theorem F2_near_integral evs Vs Qs ncoeffs dts a b k l o :
 Proof.
   intros H0 Hthr HN HC H1 H2 H3 H5 Hdt Ha Hb Hk Hl Ho Hmask ts segs w tau F2.
   destruct (F2_assembly d thr 0 omega basis nopers evs Vs Qs ncoeffs dts a b k l o) as [Gam [G1 G2]]; auto. lra.
+  apply (no_taylor_mono d omega thr 0); auto.
   exists Gam. eexists. split; [exact G1|]. split; [exact G2|].
   apply F2_bound; auto. unfold ts, times. rewrite cumsum_from_length. lia.
 Qed.
